@@ -64,20 +64,27 @@ Inside(p, F) == p # NoPath /\ \E f \in F : IsPrefixOf(f, p)              \* osut
 (* ---- change records *)
 X(e) == IF ~e.v THEN None ELSE IF e.exec THEN "y" ELSE "n"
 CC(a, b) == a.kind # b.kind \/ (a.kind = "file" /\ a.content # b.content)
-ChangeOf(s, t, i) == [id |-> i, op |-> Path(s, i), np |-> Path(t, i), cc |-> CC(s[i], t[i]),
-                      ov |-> s[i].v, nv |-> t[i].v, opar |-> s[i].parent, npar |-> t[i].parent,
-                      on |-> s[i].name, nn |-> t[i].name, ok |-> s[i].kind, nk |-> t[i].kind, ox |-> X(s[i]), nx |-> X(t[i])]
+ChangeRec(i, a, b, pa, pb) == [id |-> i, op |-> pa, np |-> pb, cc |-> CC(a, b), ov |-> a.v, nv |-> b.v,
+                               opar |-> a.parent, npar |-> b.parent, on |-> a.name, nn |-> b.name,
+                               ok |-> a.kind, nk |-> b.kind, ox |-> X(a), nx |-> X(b)]
+ChangeOf(s, t, i) == ChangeRec(i, s[i], t[i], Path(s, i), Path(t, i))
 RootChange == [id |-> ROOT, op |-> <<>>, np |-> <<>>, cc |-> FALSE, ov |-> TRUE, nv |-> TRUE, opar |-> None,
                npar |-> None, on |-> "", nn |-> "", ok |-> "directory", nk |-> "directory", ox |-> "n", nx |-> "n"]
-ExtraChange(t, p) == [id |-> None, op |-> NoPath, np |-> Append(IF p = ROOT THEN <<>> ELSE Path(t, p), "x"), cc |-> TRUE,
+ChangedIds(s, t) == {i \in Ids : s[i] # t[i]}
+
+(* ---- a pair context: everything about (s, t) that the operators below need, computed once per pair
+        ps / pt = path of every id in s / t, d = the declarative Diff, u = the unchanged entries (and the root) *)
+Pair(s, t) == LET ps == [i \in Ids |-> Path(s, i)]
+                  pt == [i \in Ids |-> Path(t, i)]
+              IN [s |-> s, t |-> t, ps |-> ps, pt |-> pt,
+                  d |-> {ChangeRec(i, s[i], t[i], ps[i], pt[i]) : i \in ChangedIds(s, t)},
+                  u |-> {ChangeRec(i, s[i], t[i], ps[i], pt[i]) : i \in Versioned(s) \ ChangedIds(s, t)} \cup {RootChange}]
+Diff(s, t) == Pair(s, t).d
+
+ExtraChange(x, p) == [id |-> None, op |-> NoPath, np |-> Append(IF p = ROOT THEN <<>> ELSE x.pt[p], "x"), cc |-> TRUE,
                       ov |-> FALSE, nv |-> FALSE, opar |-> None, npar |-> None, on |-> None, nn |-> "x",
                       ok |-> None, nk |-> "file", ox |-> None, nx |-> "n"]
-
-ChangedIds(s, t) == {i \in Ids : s[i] # t[i]}
-Diff(s, t)       == {ChangeOf(s, t, i) : i \in ChangedIds(s, t)}
-Unchanged(s, t)  == {ChangeOf(s, t, i) : i \in Versioned(s) \ ChangedIds(s, t)} \cup {RootChange}
-EffExtras(t, tx) == {p \in tx : IsDir(t, p)}
-Extras(t, tx)    == {ExtraChange(t, p) : p \in EffExtras(t, tx)}
+Extras(x, tx) == {ExtraChange(x, p) : p \in {r \in tx : IsDir(x.t, r)}}
 
 \* Apply: the tree obtained from s by the versioned records of a change set (file texts that the record cannot carry
 \* - new files - are taken from the target)
@@ -90,37 +97,51 @@ NewEntry(c, se, te) == IF ~c.nv THEN NoEntry
 Apply(s, C, t) == [i \in Ids |-> IF Recs(C, i) = {} THEN s[i] ELSE NewEntry(CHOOSE c \in Recs(C, i) : TRUE, s[i], t[i])]
 
 (* ---- path filters *)
-AtPath(t, p) == {i \in Versioned(t) : Path(t, i) = p} \cup (IF p = <<>> THEN {ROOT} ELSE {})
-RECURSIVE Close(_, _, _, _)
-Close(s, t, S, n) == LET S2 == S \cup {i \in Ids : (s[i].v /\ s[i].parent \in S) \/ (t[i].v /\ t[i].parent \in S)}
-                     IN IF n = 0 \/ S2 = S THEN S2 ELSE Close(s, t, S2, n - 1)
+AtPath(x, p) == {i \in Ids : x.ps[i] = p \/ x.pt[i] = p} \cup (IF p = <<>> THEN {ROOT} ELSE {})
+RECURSIVE Close(_, _, _)
+Close(x, S, n) == LET S2 == S \cup {i \in Ids : (x.s[i].v /\ x.s[i].parent \in S) \/ (x.t[i].v /\ x.t[i].parent \in S)}
+                  IN IF n = 0 \/ S2 = S THEN S2 ELSE Close(x, S2, n - 1)
 \* Tree.paths2ids: every id found at a filter path in either tree, and all their children in either tree
-Selected(s, t, F) == Close(s, t, UNION {AtPath(s, p) \cup AtPath(t, p) : p \in F}, Cardinality(Ids))
+Selected(x, F) == Close(x, UNION {AtPath(x, p) : p \in F}, Cardinality(Ids))
 
 \* the parents rule (InterInventoryTree._handle_precise_ids): starting from the new parents of the emitted records,
 \* examine - besides ids already emitted - the id, the source id that sits at the same target path, its new parent, and
 \* the old children of a directory that stopped being one; emit what changed.
-RECURSIVE Examine(_, _, _, _, _)
-Examine(s, t, done, todo, n) ==
+RECURSIVE Examine(_, _, _, _)
+Examine(x, done, todo, n) ==
     LET cur  == (todo \ done) \ {None}
-        also == {i \in Ids : s[i].v /\ \E j \in cur : j \in Ids /\ t[j].v /\ Path(s, i) = Path(t, j)}
+        also == {i \in Ids : x.s[i].v /\ \E j \in cur : j \in Ids /\ x.t[j].v /\ x.ps[i] = x.pt[j]}
         all  == (cur \cup also) \ {ROOT}
-        next == {t[i].parent : i \in {j \in all : t[j].v}}
-                \cup UNION {Children(s, i) : i \in {j \in all : s[j] # t[j] /\ s[j].kind = "directory" /\ t[j].kind # "directory"}}
-    IN IF all = {} \/ n = 0 THEN {} ELSE all \cup Examine(s, t, done \cup all, next, n - 1)
-Restrict(s, t, F) == LET sel == Selected(s, t, F)
-                         r0  == {c \in Diff(s, t) : c.id \in sel}
-                         ex  == Examine(s, t, {c.id : c \in r0}, {c.npar : c \in r0}, 2 * Cardinality(Ids))
-                     IN r0 \cup {c \in Diff(s, t) : c.id \in ex}
+        next == {x.t[i].parent : i \in {j \in all : x.t[j].v}}
+                \cup UNION {Children(x.s, i) : i \in {j \in all : x.s[j] # x.t[j] /\ x.s[j].kind = "directory"
+                                                                  /\ x.t[j].kind # "directory"}}
+    IN IF all = {} \/ n = 0 THEN {} ELSE all \cup Examine(x, done \cup all, next, n - 1)
+RestrictTo(x, emit) == LET r0 == {c \in x.d : c.id \in emit}
+                           ex == Examine(x, {c.id : c \in r0}, {c.npar : c \in r0}, 2 * Cardinality(Ids))
+                       IN r0 \cup {c \in x.d : c.id \in ex}
+Restrict(x, F) == RestrictTo(x, Selected(x, F))
 
-(* ---- what a comparison is expected to report.  q = [s, t, tx, f, iu, wu]: f = <<"all">> (no filter) or <<"only", F>> *)
+\* A dirstate working tree maps filter paths to ids differently (DirStateWorkingTree.paths2ids): every id found at or
+\* below a searched path in either tree, where the other path of a moved id is searched as well - so an id that now
+\* sits on the old path of a selected id is selected too.
+RECURSIVE Search(_, _, _)
+Search(x, SP, n) == LET found == {i \in Ids : Inside(x.ps[i], SP) \/ Inside(x.pt[i], SP)}
+                        SP2 == SP \cup (({x.ps[i] : i \in found} \cup {x.pt[i] : i \in found}) \ {NoPath})
+                    IN IF n = 0 \/ SP2 = SP THEN found \cup (IF <<>> \in SP THEN {ROOT} ELSE {}) ELSE Search(x, SP2, n - 1)
+SelectedW(x, F) == Search(x, F, 2 * Cardinality(Ids))
+\* the generic comparison on a working tree walks the target entries of SelectedW and the source entries of Selected
+EmittedW(x, F) == {i \in SelectedW(x, F) : i = ROOT \/ x.t[i].v} \cup {i \in Selected(x, F) : i = ROOT \/ ~x.t[i].v}
+
+(* ---- what a comparison is expected to report.  q = [tx, f, iu, wu]: tx = directories holding an unversioned file,
+        f = <<"all">> (no filter) or <<"only", F>>, iu = include_unchanged, wu = want_unversioned *)
 Filtered(q) == q.f[1] = "only"
 FilterOf(q) == Range(q.f[2])
-SpecOut(q, working) ==
-    LET sel == IF Filtered(q) THEN Selected(q.s, q.t, FilterOf(q)) ELSE Ids \cup {ROOT}
-    IN (IF Filtered(q) THEN Restrict(q.s, q.t, FilterOf(q)) ELSE Diff(q.s, q.t))
-       \cup (IF q.iu THEN {c \in Unchanged(q.s, q.t) : c.id \in sel} ELSE {})
-       \cup (IF q.wu /\ working THEN {c \in Extras(q.t, Range(q.tx)) : ~Filtered(q) \/ Inside(c.np, FilterOf(q))} ELSE {})
+SpecOut(x, q, working) ==
+    LET sel == IF ~Filtered(q) THEN Ids \cup {ROOT}
+               ELSE IF working THEN EmittedW(x, FilterOf(q)) ELSE Selected(x, FilterOf(q))
+    IN (IF Filtered(q) THEN RestrictTo(x, sel) ELSE x.d)
+       \cup (IF q.iu THEN {c \in x.u : c.id \in sel} ELSE {})
+       \cup (IF q.wu /\ working THEN {c \in Extras(x, Range(q.tx)) : ~Filtered(q) \/ Inside(c.np, FilterOf(q))} ELSE {})
 
 (* ---- the laws of C10 on observed change sets.  o = record of observed sets (as sequences):
         chk   InterCHKRevisionTree          (2a revision trees)            - optimised
@@ -128,70 +149,76 @@ SpecOut(q, working) ==
         old   InterInventoryTree            (pack-0.92 revision trees)     - generic, other serialisation
         ds    InterDirStateTree             (working tree against basis)   - optimised
         wt    InterInventoryTree            (the same working tree/basis)  - generic  *)
+Impls == {"chk", "inv", "old", "ds", "wt"}
 Obs(o, k) == Range(o[k])
+Distinct(o) == {Obs(o, k) : k \in Impls}         \* the laws below are evaluated once per distinct observed set
 VersionedRecs(C) == {c \in C : c.id # None}
 NoDupIds(C) == \A c, d \in VersionedRecs(C) : c.id = d.id => c = d
 \* a comparison that raised is recorded as one record with id "error" (nn = the exception class)
 NoError(C) == \A c \in C : c.id # "error"
 Real(C) == {c \in VersionedRecs(C) : c.id # ROOT}
 
-LawChkGen(q, o) == Obs(o, "chk") = Obs(o, "inv")
-LawDsGen(q, o)  == Obs(o, "ds") = Obs(o, "wt")
-ApplyOk(q, C)   == NoError(C) /\ NoDupIds(C) /\ Apply(q.s, Real(C), q.t) = q.t
-LawApply(q, o)  == ~Filtered(q) => \A k \in {"chk", "inv", "old", "ds", "wt"} : ApplyOk(q, Obs(o, k))
-FilteredOk(q, C) == NoError(C) /\ NoDupIds(C) /\ ParentsValid(Apply(q.s, Real(C), q.t))
-LawFilteredValid(q, o) == Filtered(q) => \A k \in {"chk", "inv", "old", "ds", "wt"} : FilteredOk(q, Obs(o, k))
-CompleteOk(q, C) == \A c \in Diff(q.s, q.t) : (Inside(c.op, FilterOf(q)) \/ Inside(c.np, FilterOf(q))) => c \in C
-LawFilteredComplete(q, o) == Filtered(q) => \A k \in {"chk", "inv", "old", "ds", "wt"} : CompleteOk(q, Obs(o, k))
+LawChkGen(x, q, o) == Obs(o, "chk") = Obs(o, "inv")
+LawDsGen(x, q, o)  == Obs(o, "ds") = Obs(o, "wt")
+ApplyOk(x, C)      == NoError(C) /\ NoDupIds(C) /\ Apply(x.s, Real(C), x.t) = x.t
+LawApply(x, q, o)  == ~Filtered(q) => \A C \in Distinct(o) : ApplyOk(x, C)
+FilteredOk(x, C)   == NoError(C) /\ NoDupIds(C) /\ ParentsValid(Apply(x.s, Real(C), x.t))
+LawFilteredValid(x, q, o) == Filtered(q) => \A C \in Distinct(o) : FilteredOk(x, C)
+CompleteOk(x, q, C) == \A c \in x.d : (Inside(c.op, FilterOf(q)) \/ Inside(c.np, FilterOf(q))) => c \in C
+LawFilteredComplete(x, q, o) == Filtered(q) => \A C \in Distinct(o) : CompleteOk(x, q, C)
 
 LawNames == <<"chk=generic", "dirstate=generic", "apply", "filtered-valid", "filtered-complete">>
-Law(n, q, o) == CASE n = "chk=generic" -> LawChkGen(q, o) [] n = "dirstate=generic" -> LawDsGen(q, o)
-                  [] n = "apply" -> LawApply(q, o) [] n = "filtered-valid" -> LawFilteredValid(q, o)
-                  [] n = "filtered-complete" -> LawFilteredComplete(q, o)
-Failed(q, o) == {n \in Range(LawNames) : ~Law(n, q, o)}
+Law(n, x, q, o) == CASE n = "chk=generic" -> LawChkGen(x, q, o) [] n = "dirstate=generic" -> LawDsGen(x, q, o)
+                     [] n = "apply" -> LawApply(x, q, o) [] n = "filtered-valid" -> LawFilteredValid(x, q, o)
+                     [] n = "filtered-complete" -> LawFilteredComplete(x, q, o)
+Failed(x, q, o) == {n \in Range(LawNames) : ~Law(n, x, q, o)}
 \* which implementations break a per-implementation law (for the violation signature)
-Culprits(q, o) == {k \in {"chk", "inv", "old", "ds", "wt"} :
-                     \/ (~Filtered(q) /\ ~ApplyOk(q, Obs(o, k)))
-                     \/ (Filtered(q) /\ (~FilteredOk(q, Obs(o, k)) \/ ~CompleteOk(q, Obs(o, k))))}
+Culprits(x, q, o) == {k \in Impls :
+                        \/ (~Filtered(q) /\ ~ApplyOk(x, Obs(o, k)))
+                        \/ (Filtered(q) /\ (~FilteredOk(x, Obs(o, k)) \/ ~CompleteOk(x, q, Obs(o, k))))}
 \* conformance with the declarative model (drift, not part of the property)
-DriftKeys(q, o) == {k \in {"chk", "inv", "old"} : Obs(o, k) # SpecOut(q, FALSE)}
-                   \cup {k \in {"ds", "wt"} : Obs(o, k) # SpecOut(q, TRUE)}
+DriftKeys(x, q, o) == LET r == SpecOut(x, q, FALSE) w == SpecOut(x, q, TRUE)
+                      IN {k \in {"chk", "inv", "old"} : Obs(o, k) # r} \cup {k \in {"ds", "wt"} : Obs(o, k) # w}
 
 (* ---- git flavour: path-keyed.  A git record is [op, np, cc, ov, nv, ok, nk, ox, nx, cp]: cp = reported as a copy.
-        Git trees hold files only; a rename is judged as remove + add. *)
-FileAt(t, p) == CHOOSE i \in Versioned(t) : Path(t, i) = p
-FilePaths(t) == {Path(t, i) : i \in {j \in Versioned(t) : t[j].kind = "file"}}
-\* what git sees at a path: whose text it is (every id has its own text), which variant, and the exec bit
-Attr(t, p) == LET i == FileAt(t, p) IN <<t[i].exec, i, t[i].content>>
+        Git trees hold files only; a rename is judged as remove + add.  A git context g = GitPair(x):
+        fs / ft = file paths of s / t, as / at = what git sees at a path: the exec bit, whose text it is (every id has
+        its own text) and which variant. *)
+FileIds(t) == {j \in Versioned(t) : t[j].kind = "file"}
+GitPair(x) == [fs |-> {x.ps[i] : i \in FileIds(x.s)}, ft |-> {x.pt[i] : i \in FileIds(x.t)},
+               as |-> {<<x.ps[i], x.s[i].exec, i, x.s[i].content>> : i \in FileIds(x.s)},
+               at |-> {<<x.pt[i], x.t[i].exec, i, x.t[i].content>> : i \in FileIds(x.t)}]
+AttrIn(A, p) == LET a == CHOOSE a \in A : a[1] = p IN <<a[2], a[3], a[4]>>
 GitFileRecs(C) == {c \in C : (c.ov \/ c.nv) /\ c.ok # "directory" /\ c.nk # "directory"}
 GitRemoved(C) == {c.op : c \in {d \in GitFileRecs(C) : d.ov /\ d.op # d.np /\ ~d.cp}}
 GitAdded(C)   == {c.np : c \in {d \in GitFileRecs(C) : d.nv /\ d.op # d.np}}
 GitInPlace(C) == {c.np : c \in {d \in GitFileRecs(C) : d.ov /\ d.nv /\ d.op = d.np /\ d.cc}}
 GitNoError(C) == \A c \in C : c.op # <<"error">>
-GitApplyOk(q, C) ==
+GitApplyOk(g, C) ==
     /\ GitNoError(C)
-    /\ FilePaths(q.t) = (FilePaths(q.s) \ GitRemoved(C)) \cup GitAdded(C)
-    /\ GitRemoved(C) \subseteq FilePaths(q.s)
-    /\ \A c \in GitFileRecs(C) : (c.nv /\ c.np \in FilePaths(q.t)) => c.nx = (IF Attr(q.t, c.np)[1] THEN "y" ELSE "n")
-    /\ \A p \in (FilePaths(q.s) \cap FilePaths(q.t)) \ (GitRemoved(C) \cup GitAdded(C)) :
-          (Attr(q.s, p) # Attr(q.t, p)) <=> p \in GitInPlace(C)
-GitCompleteOk(q, C) ==
+    /\ g.ft = (g.fs \ GitRemoved(C)) \cup GitAdded(C)
+    /\ GitRemoved(C) \subseteq g.fs
+    /\ \A c \in GitFileRecs(C) : (c.nv /\ c.np \in g.ft) => c.nx = (IF AttrIn(g.at, c.np)[1] THEN "y" ELSE "n")
+    /\ \A p \in (g.fs \cap g.ft) \ (GitRemoved(C) \cup GitAdded(C)) :
+          (AttrIn(g.as, p) # AttrIn(g.at, p)) <=> p \in GitInPlace(C)
+GitCompleteOk(g, q, C) ==
     /\ GitNoError(C)
-    /\ \A p \in FilePaths(q.s) \ FilePaths(q.t) : Inside(p, FilterOf(q)) => p \in GitRemoved(C)
-    /\ \A p \in FilePaths(q.t) \ FilePaths(q.s) : Inside(p, FilterOf(q)) => p \in GitAdded(C)
-    /\ \A p \in FilePaths(q.s) \cap FilePaths(q.t) :
-          (Inside(p, FilterOf(q)) /\ Attr(q.s, p) # Attr(q.t, p)) => p \in GitInPlace(C) \cup (GitRemoved(C) \cap GitAdded(C))
+    /\ \A p \in g.fs \ g.ft : Inside(p, FilterOf(q)) => p \in GitRemoved(C)
+    /\ \A p \in g.ft \ g.fs : Inside(p, FilterOf(q)) => p \in GitAdded(C)
+    /\ \A p \in g.fs \cap g.ft :
+          (Inside(p, FilterOf(q)) /\ AttrIn(g.as, p) # AttrIn(g.at, p)) => p \in GitInPlace(C) \cup (GitRemoved(C) \cap GitAdded(C))
 GitLawNames == <<"git-apply", "git-filtered-complete">>
-GitLaw(n, q, o) == CASE n = "git-apply" -> (~Filtered(q) => \A k \in DOMAIN o : GitApplyOk(q, Obs(o, k)))
-                     [] n = "git-filtered-complete" -> (Filtered(q) => \A k \in DOMAIN o : GitCompleteOk(q, Obs(o, k)))
-GitFailed(q, o) == {n \in Range(GitLawNames) : ~GitLaw(n, q, o)}
+GitLaw(n, g, q, o) == CASE n = "git-apply" -> (~Filtered(q) => \A k \in DOMAIN o : GitApplyOk(g, Obs(o, k)))
+                        [] n = "git-filtered-complete" -> (Filtered(q) => \A k \in DOMAIN o : GitCompleteOk(g, q, Obs(o, k)))
+GitFailed(g, q, o) == {n \in Range(GitLawNames) : ~GitLaw(n, g, q, o)}
 \* the path-level projection of the declarative Diff, as git records (reference for the in-spec check)
-GitSpecOut(q) ==
+XA(a) == IF a[1] THEN "y" ELSE "n"
+GitSpecOut(g) ==
     {[op |-> p, np |-> NoPath, cc |-> TRUE, ov |-> TRUE, nv |-> FALSE, ok |-> "file", nk |-> None,
-      ox |-> X(q.s[FileAt(q.s, p)]), nx |-> None, cp |-> FALSE] : p \in FilePaths(q.s) \ FilePaths(q.t)}
+      ox |-> XA(AttrIn(g.as, p)), nx |-> None, cp |-> FALSE] : p \in g.fs \ g.ft}
     \cup {[op |-> NoPath, np |-> p, cc |-> TRUE, ov |-> FALSE, nv |-> TRUE, ok |-> None, nk |-> "file",
-           ox |-> None, nx |-> X(q.t[FileAt(q.t, p)]), cp |-> FALSE] : p \in FilePaths(q.t) \ FilePaths(q.s)}
+           ox |-> None, nx |-> XA(AttrIn(g.at, p)), cp |-> FALSE] : p \in g.ft \ g.fs}
     \cup {[op |-> p, np |-> p, cc |-> TRUE, ov |-> TRUE, nv |-> TRUE, ok |-> "file", nk |-> "file",
-           ox |-> X(q.s[FileAt(q.s, p)]), nx |-> X(q.t[FileAt(q.t, p)]), cp |-> FALSE] :
-             p \in {r \in FilePaths(q.s) \cap FilePaths(q.t) : Attr(q.s, r) # Attr(q.t, r)}}
+           ox |-> XA(AttrIn(g.as, p)), nx |-> XA(AttrIn(g.at, p)), cp |-> FALSE] :
+             p \in {r \in g.fs \cap g.ft : AttrIn(g.as, r) # AttrIn(g.at, r)}}
 =============================================================================
